@@ -170,7 +170,10 @@ type respPkg struct {
 }
 
 func rDone(status, count int) respPkg {
-	return respPkg{wDone(0xFD, status, 0, count), fmt.Sprintf("done:%d", status), fmt.Sprintf("done %d 0 %d", status, count)}
+	// all three DONE tokens (DONE, DONEPROC, DONEINPROC are one Go type) and all transaction states
+	tok := []byte{0xFD, 0xFE, 0xFF}[count%3]
+	tran := (count / 3) % 4
+	return respPkg{wDone(tok, status, tran, count), fmt.Sprintf("done:%d", status), fmt.Sprintf("done %d %d %d", status, tran, count)}
 }
 func rEED(nr int, info bool, msg string) respPkg {
 	// the status is a bit set: TDS_EED_FOLLOWS (0x01) with and without TDS_EED_INFO (0x02)
